@@ -9,6 +9,7 @@ with scripted sockets.  The judge is mc/refs/xfr.py (RFC 5936 / RFC 1995 interpr
 """
 from __future__ import annotations
 
+import copy
 import itertools
 import socket
 import struct
@@ -296,6 +297,21 @@ def stream_faults(scn):
     return uniq
 
 
+SIBLING = {"A": "10.9.9.8", "NS": "nsx.example.", "TXT": '"zz"', "MX": "99 mx9.example."}
+
+
+def sibling_faults(scn):
+    """After every non-SOA record one more record of the same owner, type and TTL that no version
+    holds: in a deletion part the pair is a deletion RRset that only partly matches the zone."""
+    s = scn["stream"]
+    out = []
+    for p, r in enumerate(s):
+        if r[1] in SIBLING:
+            out.append(("sibling@%d" % p, "sibling", s[:p + 1] + [(r[0], r[1], r[2], SIBLING[r[1]])] + s[p + 1:]))
+            out.append(("sibling-before@%d" % p, "sibling", s[:p] + [(r[0], r[1], r[2], SIBLING[r[1]])] + s[p:]))
+    return out
+
+
 RCODES = [5, 2, 9]
 
 
@@ -514,6 +530,27 @@ def parse(w, origin, udp, is_ixfr):
     return r
 
 
+def group_adjacent(msg):
+    """The same message with adjacent answer RRs of one owner/class/type/covered type (SOA
+    excepted) held as one RRset, as a caller that builds or regroups messages itself hands them
+    to Inbound.process_message: the order of the records is what it was."""
+    out = []
+    for rrset in msg.answer:
+        last = out[-1] if out else None
+        if (last is not None and rrset.rdtype != dns.rdatatype.SOA and last.name == rrset.name
+                and last.rdclass == rrset.rdclass and last.rdtype == rrset.rdtype
+                and last.covers == rrset.covers and last.ttl == rrset.ttl):
+            merged = dns.rrset.RRset(last.name, last.rdclass, last.rdtype, last.covers)
+            merged.update(last)
+            merged.update(rrset)
+            out[-1] = merged
+        else:
+            out.append(rrset)
+    m2 = copy.copy(msg)
+    m2.sections = [msg.sections[0], out, msg.sections[2], msg.sections[3]]
+    return m2
+
+
 def drive_direct(zone, case, states):
     """The route of dns.query._inbound_xfr without the socket."""
     qtype = case["qtype"]
@@ -527,6 +564,8 @@ def drive_direct(zone, case, states):
             done = False
             for w in wires:
                 r = parse(w, origin, udp, is_ixfr)
+                if case.get("grouped"):
+                    r = group_adjacent(r)
                 try:
                     done = inbound.process_message(r)
                 finally:
@@ -686,7 +725,7 @@ def check_query(sent, case):
 def expected_verdict(case, pre_zone):
     if case["route"] == "direct":
         return ref.interpret(pre_zone, case["serial"], case["qtype"], case["udp"],
-                             canon_messages(case["messages"]))
+                             canon_messages(case["messages"]), strict_delete=bool(case.get("grouped")))
     mode = case["udp_mode"]
     if mode == "NEVER" or case["qtype"] == "AXFR":
         return ref.interpret(pre_zone, case["serial"], case["qtype"], False,
@@ -802,7 +841,7 @@ def recheck(case):
 
 # ---------------------------------------------------------------- enumeration
 def case_key(case):
-    return (case["route"], case["qtype"], case.get("udp"), case.get("udp_mode"), repr(case["pre"]),
+    return (case["route"], bool(case.get("grouped")), case["qtype"], case.get("udp"), case.get("udp_mode"), repr(case["pre"]),
             repr(case.get("messages")), repr(case.get("udp_messages")), repr(case.get("tcp_messages")))
 
 
@@ -881,6 +920,17 @@ def work(task, col):
                 col.count("fault_" + cls)
                 judge(col, direct_case(scn, msgs), kinds,
                       "%s fault=%s split=%s" % (scn["name"], lab, list(cuts)))
+    elif section == "grouped":
+        # Inbound.process_message fed with messages whose adjacent RRs of one RRset are grouped
+        for lab, cls, st in [("none", "none", scn["stream"])] + sibling_faults(scn):
+            for cuts in reduced_splits(len(st), 1):
+                idx += 1
+                if idx % K != k:
+                    continue
+                msgs = build_messages(st, cuts, "all", scn["qtype"])
+                col.count("grouped_cases")
+                judge(col, dict(direct_case(scn, msgs), grouped=True), kinds,
+                      "%s grouped fault=%s split=%s" % (scn["name"], lab, list(cuts)))
     elif section == "socket":
         streams = [("none", "none", scn["stream"])]
         if cfg["socket_faults"]:
@@ -936,7 +986,7 @@ def run(ctx):
                 "(drop, duplicate, swap, truncate, surplus record/SOA after the final SOA, serial +1/-1/base/target/"
                 "backwards 2^31+-1/2^31, owner in-zone/apex/out-of-zone, type generic/SOA) x divisions (all when "
                 "short, else <= maxcuts cuts + one-record-per-message); every message-level fault (rcode, wrong "
-                "question) on every message.  Each case runs on 3 zone classes x relativize.  Distinct/non-trivial "
+                "question) on every message; every TCP IXFR scenario once more through Inbound.process_message with adjacent RRs of one RRset grouped, fault-free and with one never-held sibling record after/before every non-SOA record (a deletion RRset that only partly matches the zone must be refused).  Each case runs on 3 zone classes x relativize.  Distinct/non-trivial "
                 "= distinct (pre-state, query, transport, message sequence); zone kinds replicate it.")
     ctx.assume("one zone origin (example.), class IN, no TSIG, no EDNS; record universe of 6 records + SOA")
     ctx.assume("single faults only; faulted streams longer than full_split_upto records use the reduced split set")
@@ -971,6 +1021,9 @@ def run(ctx):
         size = sum(nsplits(scn, n, "all" if n <= cfg["msgfault_full_upto"] else "reduced", cfg["maxcuts"])) \
             * (cfg["rcodes"] + 3)
         tasks += chunks("msgfaults", si, size)
+        if scn["qtype"] == "IXFR" and not scn["udp"]:
+            tasks += chunks("grouped", si, sum(len(reduced_splits(len(st), 1)) for _, _, st in
+                                               [(0, 0, scn["stream"])] + sibling_faults(scn)))
         smax = 1 if cfg["socket_faults"] else 0
         size = 3 * (len(reduced_splits(n, 1)) + (sum(len(reduced_splits(len(st), smax)) for _, _, st in faults)
                                                  if cfg["socket_faults"] else 0))
